@@ -13,6 +13,16 @@ REALS_AXIOMS = ["ClassicalDedekindReals.sig_forall_dec", "ClassicalDedekindReals
                 "FunctionalExtensionality.functional_extensionality_dep"]
 
 PROPS = {
+    "C18": {
+        "drivers": [{"src": "drv_C18a.C", "tag": "C18a", "repo_sources": ["util/BoxMuller.C", "util/random.C"], "cxxflags": ["-DSYMX_SCRIPT_RANDOM"]},
+                    {"src": "drv_C18b.C", "tag": "C18b", "repo_sources": []}],
+        "coq": ["Tie_C18a.v", "Tie_C18b.v", "Properties_C18.v"],
+        "thm_files": ["BoxMullerModel.v"],
+        "assumptions": ["drand48() and random() deliver the uniform variables of the scripted stream (link-time substitution through the preamble's #define)",
+                        "'independent standard normal' follows from the classical theorem on the polar method for i.i.d. uniforms: cited, not proved",
+                        "float arithmetic of BoxMuller.C is the identity over R (rnd32 nodes)"],
+        "trusted_base": [],
+    },
     "C12": {
         "drivers": [{"src": "drv_C12.C", "repo_sources": []}],
         "coq": ["Tie_C12.v", "Properties_C12.v"],
